@@ -1142,3 +1142,124 @@ class UpdateStatepoint(FSContract):
 
 
 CONTRACTS += [SPGetter(), SPSetter(), UpdateStatepoint()]
+
+
+# ============================================================================= Job.document / Project.document (C05, C10): wiring of the dependency's persistent dict
+
+
+class SNewDoc(Sym):
+    """the value assigned to job.document = ... (possibly empty)"""
+
+    def __init__(self):
+        self.empty = z3.Bool("new_doc_is_empty")
+
+    def sym_truth(self, ex):
+        return z3.Not(self.empty)
+
+    def sym_len(self, ex):
+        from pyvc.core import SInt
+        n = z3.Int("len_new_doc")
+        ex.assume(z3.And(n >= 0, (n == 0) == self.empty))
+        return SInt(n)
+
+    def sym_eq(self, ex, other):
+        if isinstance(other, dict) and not other:
+            return SBool(self.empty)
+        raise Unsupported("document value ==")
+
+
+class JobDocGetter(FSContract):
+    target = f"{JOB}.Job.document"
+    properties = ("C05", "C10")
+    callees = {f"{JOB}.Job.init": stub_job_init}
+    faults = False
+
+    def setup(self, interp, case):
+        ex, ctx = interp.ex, interp.ctx
+        ctx.fs_init(ex)
+        proj = mk_project(ex)
+        job = mk_job(interp, proj, "me")
+        from .jobfs import SDoc
+        if ex.decide(None, "pre:document handle already open"):
+            job.fields["_document"] = SDoc(LIn(proj.p, job.me, Name.DOC), True)
+        return [job], {}, {"job": job, "p": proj.p, "me": job.me, "had": job.fields["_document"]}
+
+    def post(self, interp, case, pre, outcome):
+        from .jobfs import SDoc
+        ex, ctx = interp.ex, interp.ctx
+        job, p, me = pre["job"], pre["p"], pre["me"]
+        if outcome[0] != "return":
+            return    # init() may fail (JobsCorruptedError): nothing is handed out then
+        d = outcome[1]
+        ok = isinstance(d, SDoc) and isinstance(d.filename, LIn) and d.write_concern is True and job.fields["_document"] is d
+        ex.oblige(self.oname("ensures:returns_the_cached_handle_with_write_concern_True"), z3.BoolVal(bool(ok)))
+        if ok:
+            ex.oblige(self.oname("ensures:handle_is_bound_to_this_job's_document_file"), z3.And(d.filename.p == p, d.filename.i == me, d.filename.name == Name.DOC))
+        ex.oblige(self.oname("ensures:an_open_handle_is_reused"), z3.BoolVal(pre["had"] is None or d is pre["had"]))
+        ex.oblige(self.oname("ensures:job_directory_exists_before_a_new_handle_is_created"), z3.Implies(z3.BoolVal(pre["had"] is None), ctx.fs.dirs[JD.mk(p, me)]))
+
+
+class JobDocSetter(FSContract):
+    target = f"{JOB}.Job.document.setter"
+    properties = ("C05",)
+    inline = GETTERS + (f"{JOB}.Job.document",)
+    callees = {f"{JOB}.Job.init": stub_job_init}
+    faults = False
+
+    def setup(self, interp, case):
+        ex, ctx = interp.ex, interp.ctx
+        ctx.fs_init(ex)
+        proj = mk_project(ex)
+        job = mk_job(interp, proj, "me")
+        from .jobfs import SDoc
+        if ex.decide(None, "pre:document handle already open"):
+            job.fields["_document"] = SDoc(LIn(proj.p, job.me, Name.DOC), True)
+        ctx.ghost["resets"] = []
+        orig = ctx.doc_write
+
+        def doc_write(interp_, doc, what, *a):
+            ctx.ghost["resets"].append((doc, what))
+            return orig(interp_, doc, what)
+        ctx.doc_write = doc_write
+        return [job, SNewDoc()], {}, {"job": job, "p": proj.p, "me": job.me}
+
+    def post(self, interp, case, pre, outcome):
+        ex, ctx = interp.ex, interp.ctx
+        if outcome[0] != "return":
+            return
+        rs = ctx.ghost["resets"]
+        ok = len(rs) == 1 and rs[0][1] == "reset" and isinstance(rs[0][0].filename, LIn)
+        ex.oblige(self.oname("ensures:assignment_resets_the_persistent_document_exactly_once_whatever_the_new_value"), z3.BoolVal(ok), note=str([r[1] for r in rs]))
+        if ok:
+            fn = rs[0][0].filename
+            ex.oblige(self.oname("ensures:the_reset_goes_to_this_job's_document_file"), z3.And(fn.p == pre["p"], fn.i == pre["me"], fn.name == Name.DOC))
+
+
+class BufferAliases(Contract):
+    """signac.buffered & friends are the buffering context of the very class job/project documents are made of"""
+    target = f"{JOB}.Job.id"     # anchor only: the obligations are concrete identities of module attributes
+    properties = ("C05",)
+
+    def setup(self, interp, case):
+        rp = interp.repo
+        rp.load(JOB)
+        o = Obj(rp.classes[f"{JOB}.Job"])
+        o.fields["_id"] = "x"
+        return [o], {}, {}
+
+    def post(self, interp, case, pre, outcome):
+        import signac
+        import signac.job
+        import signac.project
+        from synced_collections.backends.collection_json import BufferedJSONAttrDict
+        ex = interp.ex
+        ex.oblige(self.oname("const:documents_are_BufferedJSONAttrDict_in_job_and_project"),
+                  z3.BoolVal(signac.job.BufferedJSONAttrDict is BufferedJSONAttrDict and signac.project.BufferedJSONAttrDict is BufferedJSONAttrDict))
+        ex.oblige(self.oname("const:signac.buffered_is_that_class'_buffer_context"), z3.BoolVal(signac.buffered == BufferedJSONAttrDict.buffer_backend))
+        ex.oblige(self.oname("const:buffer_size_accessors_belong_to_that_class"),
+                  z3.BoolVal(signac.get_buffer_capacity == BufferedJSONAttrDict.get_buffer_capacity and signac.set_buffer_capacity == BufferedJSONAttrDict.set_buffer_capacity
+                             and signac.get_current_buffer_size == BufferedJSONAttrDict.get_current_buffer_size and signac.is_buffered == BufferedJSONAttrDict.backend_is_buffered
+                             and signac.JSONDict is BufferedJSONAttrDict))
+
+
+CONTRACTS += [JobDocGetter(), JobDocSetter(), BufferAliases()]
